@@ -89,12 +89,17 @@ package deviceshare
 //@   loop 1 invariant #sum: forall m int, rn corev1.ResourceName :: val(r[m], rn) == old(val(r[m], rn)) + ($seen[m] && has(in, m) && admits(hintMinors, m) ? old(val(in[m], rn)) : 0)
 //@   loop 1 invariant #keys: forall m int, rn corev1.ResourceName :: has(r[m], rn) == (old(has(r[m], rn)) || ($seen[m] && has(in, m) && admits(hintMinors, m) && old(has(in[m], rn))))
 
+// What quotav1.SubtractWithNonNegativeResult(a, b) stores under a name (library code, apiserver resources.go:104-126, and
+// its ASSUMED contract in /verif/lib/quota.spec): max0(a - b) for a name of a; 0 for a name only b carries, WHATEVER the
+// sign of b's amount. had = "a has the name", u = a's amount (0 when absent), s = b's amount. It equals the plain
+// max0(u - s) unless !had && s < 0 (subtracting a negative amount from an absent name), where max0(u - s) would be -s > 0.
+//@ spec func subNN(had bool, u real, s real) real = had ? max0(u - s) : 0
+
 // subtract: r[m] -= in[m] for every minor m of `in` (clamped at 0 per resource when withNonNegativeResult), written into a
 // FRESH list (quotav1.Subtract*); a minor whose difference is all-zero is removed from r.
-//   #diff    amounts of the minors of `in`: old amount (0 when r lacked the minor or the name) minus in's amount, resp.
-//            max0 of it. The clamped form is claimed where the ASSUMED extern of SubtractWithNonNegativeResult
-//            (/verif/lib/quota.spec: max0(a - b) for every name) is faithful to the library code, i.e. the name is in r's old
-//            list or in's amount is >= 0 (for a name only in `in` the library stores 0 whatever the sign of in's amount);
+//   #diff    amounts of the minors of `in`, exact for all inputs: old amount (0 when r lacked the minor or the name) minus
+//            in's amount; with clamping subNN of them, i.e. max0 of the difference for a name of r's old list and 0 for a
+//            name only `in` carries (whatever the sign of in's amount -- the same as max0(0 - amount) when it is >= 0);
 //   #absent  what really happens for a minor that `in` has and r lacks: r[m] is read as an empty list, so without clamping a
 //            NEW entry holding the NEGATED amounts of in[m] is inserted (unless they are all 0);
 //   #dom     a minor of `in` is in r afterwards iff its new amounts are not all 0 (whether or not r had it before);
@@ -102,10 +107,10 @@ package deviceshare
 //   #rest    minors that `in` lacks keep their entry (same list object); #rlframe: NO ResourceList that existed on entry is
 //            written -- neither the lists of `in` nor r's own old lists (they are replaced, not updated);
 //   #ok      the accumulator invariants survive.
-//@ spec func subAmt(a real, b real, clamp bool) real = clamp ? max0(a - b) : a - b
+//@ spec func subAmt(had bool, a real, b real, clamp bool) real = clamp ? subNN(had, a, b) : a - b
 //@ func (deviceResources).subtract [C07]
 //@   requires r != nil ==> r != in
-//@   ensures #diff: r != nil ==> (forall m int, rn corev1.ResourceName :: has(in, m) && (withNonNegativeResult ==> old(has(r[m], rn)) || old(val(in[m], rn)) >= 0) ==> val(r[m], rn) == subAmt(old(val(r[m], rn)), old(val(in[m], rn)), withNonNegativeResult))
+//@   ensures #diff: r != nil ==> (forall m int, rn corev1.ResourceName :: has(in, m) ==> val(r[m], rn) == subAmt(old(has(r[m], rn)), old(val(r[m], rn)), old(val(in[m], rn)), withNonNegativeResult))
 //@   ensures #absent: r != nil && !withNonNegativeResult ==> (forall m int, rn corev1.ResourceName :: has(in, m) && !old(has(r, m)) ==> val(r[m], rn) == -old(val(in[m], rn)))
 //@   ensures #dom: r != nil ==> (forall m int :: has(in, m) ==> (has(r, m) <==> (exists rn corev1.ResourceName :: val(r[m], rn) != 0)))
 //@   ensures #keys: r != nil ==> (forall m int, rn corev1.ResourceName :: has(in, m) && has(r, m) ==> has(r[m], rn) == (old(has(r[m], rn)) || old(has(in[m], rn))))
@@ -118,7 +123,7 @@ package deviceshare
 //@   loop 1 invariant r != nil && r != in
 //@   loop 1 invariant #in: forall m int :: has(in, m) == old(has(in, m)) && in[m] == old(in[m])
 //@   loop 1 invariant #rest: forall m int :: !($seen[m] && has(in, m)) ==> r[m] == old(r[m]) && has(r, m) == old(has(r, m))
-//@   loop 1 invariant #diff: forall m int, rn corev1.ResourceName :: $seen[m] && has(in, m) && (withNonNegativeResult ==> old(has(r[m], rn)) || old(val(in[m], rn)) >= 0) ==> val(r[m], rn) == subAmt(old(val(r[m], rn)), old(val(in[m], rn)), withNonNegativeResult)
+//@   loop 1 invariant #diff: forall m int, rn corev1.ResourceName :: $seen[m] && has(in, m) ==> val(r[m], rn) == subAmt(old(has(r[m], rn)), old(val(r[m], rn)), old(val(in[m], rn)), withNonNegativeResult)
 //@   loop 1 invariant #dom: forall m int :: $seen[m] && has(in, m) ==> (has(r, m) <==> (exists rn corev1.ResourceName :: val(r[m], rn) != 0))
 //@   loop 1 invariant #keys: forall m int, rn corev1.ResourceName :: $seen[m] && has(in, m) && has(r, m) ==> has(r[m], rn) == (old(has(r[m], rn)) || old(has(in[m], rn)))
 //@   loop 1 invariant #fresh: forall m int :: $seen[m] && has(in, m) && has(r, m) ==> r[m] != nil && fresh(r[m])
@@ -140,8 +145,9 @@ package deviceshare
 //@ spec func hasUsd(n *nodeDevice, t schedulingv1alpha1.DeviceType, m int, r corev1.ResourceName) bool = has(n.deviceUsed[t][m], r)
 //@ spec func hasFre(n *nodeDevice, t schedulingv1alpha1.DeviceType, m int, r corev1.ResourceName) bool = has(n.deviceFree[t][m], r)
 
-// All three ledgers of type t hold the same amounts (and the same set of in-use minors) as on entry.
-//@ spec func ledgerSame(n *nodeDevice, t schedulingv1alpha1.DeviceType) bool = forall m int, r corev1.ResourceName :: usd(n, t, m, r) == old(usd(n, t, m, r)) && fre(n, t, m, r) == old(fre(n, t, m, r)) && tot(n, t, m, r) == old(tot(n, t, m, r)) && has(n.deviceUsed[t], m) == old(has(n.deviceUsed[t], m))
+// All three ledgers of type t hold the same amounts (and the same set of in-use minors, and the same resource names in the
+// total and used lists: the exact balance distinguishes "name absent from the total" from "amount 0") as on entry.
+//@ spec func ledgerSame(n *nodeDevice, t schedulingv1alpha1.DeviceType) bool = forall m int, r corev1.ResourceName :: usd(n, t, m, r) == old(usd(n, t, m, r)) && fre(n, t, m, r) == old(fre(n, t, m, r)) && tot(n, t, m, r) == old(tot(n, t, m, r)) && has(n.deviceUsed[t], m) == old(has(n.deviceUsed[t], m)) && hasTot(n, t, m, r) == old(hasTot(n, t, m, r)) && hasUsd(n, t, m, r) == old(hasUsd(n, t, m, r))
 
 // free = max0(total - used) for every minor and resource of the type (whole-map statement; absent entries count as 0).
 //@ spec func freeBalanced(n *nodeDevice, t schedulingv1alpha1.DeviceType) bool = forall m int, r corev1.ResourceName :: fre(n, t, m, r) == max0(tot(n, t, m, r) - usd(n, t, m, r))
@@ -149,12 +155,21 @@ package deviceshare
 // Inventory amounts are non-negative (Device CR quantities); only used as a hypothesis of the max0 form of the balance.
 //@ spec func totNonNeg(n *nodeDevice, t schedulingv1alpha1.DeviceType) bool = forall m int, r corev1.ResourceName :: tot(n, t, m, r) >= 0
 
+// In-use amounts are non-negative. A ledger invariant: newNodeDevice starts with empty ledgers, updateDeviceUsed /
+// updateCacheUsed keep it (#nonneg: adding needs non-negative allocation amounts, removal clamps at 0), and
+// resetDeviceFree / resetDeviceTotal / updateAllocateSet do not touch the used amounts (#used / #ledgers).
+//@ spec func usedNonNeg(n *nodeDevice, t schedulingv1alpha1.DeviceType) bool = forall m int, r corev1.ResourceName :: usd(n, t, m, r) >= 0
+
+// resetDeviceFree: free[t] := copy of total[t]; then for every minor of used[t]: free[t][m] := SubtractWithNonNegativeResult(total[t][m], used[t][m]).
+//   #free      exact, for all inputs: on a minor in use, a resource of the total is max0(total - used), a resource the total
+//              lacks is 0 (not max0(0 - used): the two differ for a negative used amount); not in use: the total;
+//   #balanced  free = max0(total - used) on every minor and resource when totals and used amounts are non-negative.
 //@ func (*nodeDevice).resetDeviceFree [C07]
 //@   requires ledgersOK(n) && innerDistinct(n)
 //@   let touch = n.deviceFree[deviceType][0]
 //@   ensures #ok: ledgersOK(n) && innerDistinct(n)
-//@   ensures #free: forall m int, r corev1.ResourceName :: fre(n, deviceType, m, r) == (old(has(n.deviceUsed[deviceType], m)) ? max0(old(tot(n, deviceType, m, r)) - old(usd(n, deviceType, m, r))) : old(tot(n, deviceType, m, r)))
-//@   ensures #balanced: old(totNonNeg(n, deviceType)) ==> freeBalanced(n, deviceType)
+//@   ensures #free: forall m int, r corev1.ResourceName :: fre(n, deviceType, m, r) == (old(has(n.deviceUsed[deviceType], m)) ? subNN(old(hasTot(n, deviceType, m, r)), old(tot(n, deviceType, m, r)), old(usd(n, deviceType, m, r))) : old(tot(n, deviceType, m, r)))
+//@   ensures #balanced: old(totNonNeg(n, deviceType)) && old(usedNonNeg(n, deviceType)) ==> freeBalanced(n, deviceType)
 //@   ensures #used: n.deviceUsed[deviceType] == old(n.deviceUsed[deviceType]) && (forall m int, r corev1.ResourceName :: usd(n, deviceType, m, r) == old(usd(n, deviceType, m, r)) && has(n.deviceUsed[deviceType], m) == old(has(n.deviceUsed[deviceType], m)))
 //@   ensures #otherledgers: forall u schedulingv1alpha1.DeviceType :: u != deviceType ==> ledgerSame(n, u)
 //@   ensures #freekeys: forall m int, r corev1.ResourceName :: hasFre(n, deviceType, m, r) <==> old(hasTot(n, deviceType, m, r)) || old(hasUsd(n, deviceType, m, r))
@@ -169,7 +184,7 @@ package deviceshare
 //@   loop 1 invariant n.deviceFree[deviceType] != nil && fresh(n.deviceFree[deviceType]) && n.deviceTotal[deviceType] != nil && n.deviceTotal[deviceType] != n.deviceFree[deviceType]
 //@   loop 1 invariant forall m int :: has(n.deviceFree[deviceType], m) <==> old(has(n.deviceTotal[deviceType], m)) || ($seen[m] && has(n.deviceUsed[deviceType], m))
 //@   loop 1 invariant forall m int :: has(n.deviceTotal[deviceType], m) <==> old(has(n.deviceTotal[deviceType], m)) || ($seen[m] && has(n.deviceUsed[deviceType], m))
-//@   loop 1 invariant forall m int, r corev1.ResourceName :: fre(n, deviceType, m, r) == (($seen[m] && has(n.deviceUsed[deviceType], m)) ? max0(old(tot(n, deviceType, m, r)) - old(usd(n, deviceType, m, r))) : old(tot(n, deviceType, m, r)))
+//@   loop 1 invariant forall m int, r corev1.ResourceName :: fre(n, deviceType, m, r) == (($seen[m] && has(n.deviceUsed[deviceType], m)) ? subNN(old(hasTot(n, deviceType, m, r)), old(tot(n, deviceType, m, r)), old(usd(n, deviceType, m, r))) : old(tot(n, deviceType, m, r)))
 //@   loop 1 invariant forall m int, r corev1.ResourceName :: hasFre(n, deviceType, m, r) <==> old(hasTot(n, deviceType, m, r)) || ($seen[m] && old(hasUsd(n, deviceType, m, r)))
 //@   loop 1 invariant forall m int, r corev1.ResourceName :: tot(n, deviceType, m, r) == old(tot(n, deviceType, m, r)) && hasTot(n, deviceType, m, r) == old(hasTot(n, deviceType, m, r))
 //@   loop 1 invariant rlSame()
@@ -181,6 +196,11 @@ package deviceshare
 //@ spec func minorOf(as []*apiext.DeviceAllocation, i int) int = int(as[i].Minor)
 //@ spec func amt(as []*apiext.DeviceAllocation, i int, r corev1.ResourceName) real = val(as[i].Resources, r)
 //@ spec func named(as []*apiext.DeviceAllocation, m int) bool = exists i int :: 0 <= i && i < len(as) && minorOf(as, i) == m
+// Allocation amounts are quantities of device resources: never negative. The allocator copies the pod's per-instance request
+// (defaultAllocateDevices #gets; pod requests are validated >= 0 by the API server); an allocation decoded from the pod
+// annotation (apiext.GetDeviceAllocations: a bare json.Unmarshal, NOTHING validates the sign) is non-negative only because
+// this scheduler wrote it. Used as a HYPOTHESIS of the clauses that need it, never as a silent precondition.
+//@ spec func amtNonNeg(as []*apiext.DeviceAllocation) bool = forall i int, r corev1.ResourceName :: {amt(as, i, r)} 0 <= i && i < len(as) ==> amt(as, i, r) >= 0
 
 // Virtual-function bookkeeping is outside the property; it only gets a (coarse, verified) frame: it touches nothing but
 // the VF allocation maps / sets, so the device ledgers are untouched by it.
@@ -197,7 +217,9 @@ package deviceshare
 //@   ensures #add: add ==> (forall i int, r corev1.ResourceName :: 0 <= i && i < len(allocations) ==> usd(n, deviceType, minorOf(allocations, i), r) == old(usd(n, deviceType, minorOf(allocations, i), r)) + amt(allocations, i, r))
 //@   ensures #addkeys: add ==> (forall i int, r corev1.ResourceName :: 0 <= i && i < len(allocations) ==> (hasUsd(n, deviceType, minorOf(allocations, i), r) <==> old(hasUsd(n, deviceType, minorOf(allocations, i), r)) || has(allocations[i].Resources, r)))
 //@   ensures #adddom: add ==> has(n.deviceUsed, deviceType) && n.deviceUsed[deviceType] != nil && (forall i int :: 0 <= i && i < len(allocations) ==> has(n.deviceUsed[deviceType], minorOf(allocations, i)))
-//@   ensures #remove: !add ==> (forall i int, r corev1.ResourceName :: 0 <= i && i < len(allocations) ==> usd(n, deviceType, minorOf(allocations, i), r) == max0(old(usd(n, deviceType, minorOf(allocations, i), r)) - amt(allocations, i, r)))
+//@   ensures #remove: !add ==> (forall i int, r corev1.ResourceName :: 0 <= i && i < len(allocations) ==> usd(n, deviceType, minorOf(allocations, i), r) == subNN(old(hasUsd(n, deviceType, minorOf(allocations, i), r)), old(usd(n, deviceType, minorOf(allocations, i), r)), amt(allocations, i, r)))
+//@   ensures #remove_nonneg: !add && old(amtNonNeg(allocations)) ==> (forall i int, r corev1.ResourceName :: 0 <= i && i < len(allocations) ==> usd(n, deviceType, minorOf(allocations, i), r) == max0(old(usd(n, deviceType, minorOf(allocations, i), r)) - amt(allocations, i, r)))
+//@   ensures #nonneg: old(usedNonNeg(n, deviceType)) && (add ==> old(amtNonNeg(allocations))) ==> usedNonNeg(n, deviceType)
 //@   ensures #removedom: !add ==> (forall i int :: 0 <= i && i < len(allocations) ==> (has(n.deviceUsed[deviceType], minorOf(allocations, i)) <==> (exists r corev1.ResourceName :: usd(n, deviceType, minorOf(allocations, i), r) != 0)))
 //@   ensures #removetype: !add ==> (has(n.deviceUsed, deviceType) <==> (exists m int :: has(n.deviceUsed[deviceType], m)))
 //@   ensures #untouched: forall m int :: !named(allocations, m) ==> n.deviceUsed[deviceType][m] == old(n.deviceUsed[deviceType][m]) && has(n.deviceUsed[deviceType], m) == old(has(n.deviceUsed[deviceType], m))
@@ -211,10 +233,11 @@ package deviceshare
 //@   loop 1 invariant add ==> (forall j int, r corev1.ResourceName :: {amt(allocations, j, r)} 0 <= j && j < $i ==> val(deviceUsed[minorOf(allocations, j)], r) == old(usd(n, deviceType, minorOf(allocations, j), r)) + amt(allocations, j, r))
 //@   loop 1 invariant add ==> (forall j int, r corev1.ResourceName :: 0 <= j && j < $i ==> (has(deviceUsed[minorOf(allocations, j)], r) <==> old(hasUsd(n, deviceType, minorOf(allocations, j), r)) || has(allocations[j].Resources, r)))
 //@   loop 1 invariant add ==> (forall j int :: 0 <= j && j < $i ==> has(deviceUsed, minorOf(allocations, j)))
-//@   loop 1 invariant !add ==> (forall j int, r corev1.ResourceName :: {amt(allocations, j, r)} 0 <= j && j < $i ==> val(deviceUsed[minorOf(allocations, j)], r) == max0(old(usd(n, deviceType, minorOf(allocations, j), r)) - amt(allocations, j, r)))
+//@   loop 1 invariant !add ==> (forall j int, r corev1.ResourceName :: {amt(allocations, j, r)} 0 <= j && j < $i ==> val(deviceUsed[minorOf(allocations, j)], r) == subNN(old(hasUsd(n, deviceType, minorOf(allocations, j), r)), old(usd(n, deviceType, minorOf(allocations, j), r)), amt(allocations, j, r)))
 //@   loop 1 invariant !add ==> (forall j int :: {minorOf(allocations, j)} 0 <= j && j < $i ==> (has(deviceUsed, minorOf(allocations, j)) <==> (exists r corev1.ResourceName :: val(deviceUsed[minorOf(allocations, j)], r) != 0)))
 //@   loop 1 invariant forall m int :: (forall j int :: 0 <= j && j < $i ==> minorOf(allocations, j) != m) ==> deviceUsed[m] == old(n.deviceUsed[deviceType][m]) && has(deviceUsed, m) == old(has(n.deviceUsed[deviceType], m))
 //@   loop 1 invariant rlSame()
+//@   loop 1 invariant #nonneg: old(usedNonNeg(n, deviceType)) && (add ==> old(amtNonNeg(allocations))) ==> (forall m int, r corev1.ResourceName :: val(deviceUsed[m], r) >= 0)
 
 //@ spec func isPod(k types.NamespacedName, pod *corev1.Pod) bool = k.Namespace == pod.ObjectMeta.Namespace && k.Name == pod.ObjectMeta.Name
 
@@ -241,9 +264,14 @@ package deviceshare
 // applies(n, t, pod, add): the event is not a duplicate add / a remove of an absent pod for device type t.
 //@ spec func applies(n *nodeDevice, t schedulingv1alpha1.DeviceType, pod *corev1.Pod, add bool) bool = add <==> !podIn(n.allocateSet[t], pod.ObjectMeta.Namespace, pod.ObjectMeta.Name)
 // balanced(n, t): free = total - used on every minor and resource of type t (clamped at 0 on minors that are in use).
-//@ spec func balanced(n *nodeDevice, t schedulingv1alpha1.DeviceType) bool = forall m int, r corev1.ResourceName :: fre(n, t, m, r) == (has(n.deviceUsed[t], m) ? max0(tot(n, t, m, r) - usd(n, t, m, r)) : tot(n, t, m, r))
+// Exact for all ledger contents (subNN): on a minor in use, a resource name the total lacks has free 0. With non-negative
+// used amounts (usedNonNeg, the ledger invariant) that is max0(total - used) for every name, and with non-negative totals
+// too balanced(n, t) is freeBalanced(n, t) -- stated as #free_total_minus_used where the event handlers establish it.
+//@ spec func balanced(n *nodeDevice, t schedulingv1alpha1.DeviceType) bool = forall m int, r corev1.ResourceName :: fre(n, t, m, r) == (has(n.deviceUsed[t], m) ? subNN(hasTot(n, t, m, r), tot(n, t, m, r), usd(n, t, m, r)) : tot(n, t, m, r))
 // The used and free ledgers of type t hold the same amounts as on entry.
 //@ spec func usedFreeSame(n *nodeDevice, t schedulingv1alpha1.DeviceType) bool = forall m int, r corev1.ResourceName :: usd(n, t, m, r) == old(usd(n, t, m, r)) && fre(n, t, m, r) == old(fre(n, t, m, r)) && has(n.deviceUsed[t], m) == old(has(n.deviceUsed[t], m))
+// The used lists of type t carry the same resource names as on entry (the exact removal formula subNN reads them).
+//@ spec func usedKeysSame(n *nodeDevice, t schedulingv1alpha1.DeviceType) bool = forall m int, r corev1.ResourceName :: hasUsd(n, t, m, r) == old(hasUsd(n, t, m, r))
 
 // dal(da, t) names the allocation list da[t]. Written as an uninterpreted function with the definitional precondition
 // dalDef because the solvers loop on `da[t][i]` (a slice read out of a map, ite-guarded, under the slice-offset axiom).
@@ -259,26 +287,36 @@ package deviceshare
 //@   ensures #ok: ledgersOK(n) && innerDistinct(n) && allocSetOK(n)
 //@   ensures #total: forall t schedulingv1alpha1.DeviceType, m int, r corev1.ResourceName :: tot(n, t, m, r) == old(tot(n, t, m, r))
 //@   ensures #noop: forall t schedulingv1alpha1.DeviceType :: !(has(deviceAllocations, t) && old(applies(n, t, pod, add))) ==> usedFreeSame(n, t) && (podIn(n.allocateSet[t], pod.ObjectMeta.Namespace, pod.ObjectMeta.Name) <==> old(podIn(n.allocateSet[t], pod.ObjectMeta.Namespace, pod.ObjectMeta.Name)))
-//@   ensures #moved: forall t schedulingv1alpha1.DeviceType, i int, r corev1.ResourceName :: has(deviceAllocations, t) && old(applies(n, t, pod, add)) && 0 <= i && i < len(dal(deviceAllocations, t)) ==> usd(n, t, minorOf(dal(deviceAllocations, t), i), r) == (add ? old(usd(n, t, minorOf(dal(deviceAllocations, t), i), r)) + old(amt(dal(deviceAllocations, t), i, r)) : max0(old(usd(n, t, minorOf(dal(deviceAllocations, t), i), r)) - old(amt(dal(deviceAllocations, t), i, r))))
+//@   ensures #moved: forall t schedulingv1alpha1.DeviceType, i int, r corev1.ResourceName :: has(deviceAllocations, t) && old(applies(n, t, pod, add)) && 0 <= i && i < len(dal(deviceAllocations, t)) ==> usd(n, t, minorOf(dal(deviceAllocations, t), i), r) == (add ? old(usd(n, t, minorOf(dal(deviceAllocations, t), i), r)) + old(amt(dal(deviceAllocations, t), i, r)) : subNN(old(hasUsd(n, t, minorOf(dal(deviceAllocations, t), i), r)), old(usd(n, t, minorOf(dal(deviceAllocations, t), i), r)), old(amt(dal(deviceAllocations, t), i, r))))
 //@   ensures #otherminors: forall t schedulingv1alpha1.DeviceType, m int, r corev1.ResourceName :: has(deviceAllocations, t) && old(applies(n, t, pod, add)) && !named(dal(deviceAllocations, t), m) ==> usd(n, t, m, r) == old(usd(n, t, m, r))
 //@   ensures #balanced: forall t schedulingv1alpha1.DeviceType :: has(deviceAllocations, t) && old(applies(n, t, pod, add)) ==> balanced(n, t)
 //@   ensures #member: forall t schedulingv1alpha1.DeviceType :: has(deviceAllocations, t) && old(applies(n, t, pod, add)) ==> (podIn(n.allocateSet[t], pod.ObjectMeta.Namespace, pod.ObjectMeta.Name) <==> add)
+// Non-negativity. #nonneg: the ledger invariant usedNonNeg is kept for every type (an add needs non-negative amounts in the
+// event's list of that type; a removal needs nothing: it clamps at 0). #moved_nonneg / #free_total_minus_used: the
+// property-level readings of #moved and #balanced under the non-negativity hypotheses -- a removal subtracts exactly the
+// event's amounts clamped at 0, and free = max0(total - used) on EVERY minor and resource of a touched type.
+//@   ensures #nonneg: forall t schedulingv1alpha1.DeviceType :: old(usedNonNeg(n, t)) && (add && has(deviceAllocations, t) ==> old(amtNonNeg(dal(deviceAllocations, t)))) ==> usedNonNeg(n, t)
+//@   ensures #moved_nonneg: !add ==> (forall t schedulingv1alpha1.DeviceType, i int, r corev1.ResourceName :: has(deviceAllocations, t) && old(applies(n, t, pod, add)) && old(amtNonNeg(dal(deviceAllocations, t))) && 0 <= i && i < len(dal(deviceAllocations, t)) ==> usd(n, t, minorOf(dal(deviceAllocations, t), i), r) == max0(old(usd(n, t, minorOf(dal(deviceAllocations, t), i), r)) - old(amt(dal(deviceAllocations, t), i, r))))
+//@   ensures #free_total_minus_used: forall t schedulingv1alpha1.DeviceType :: has(deviceAllocations, t) && old(applies(n, t, pod, add)) && old(totNonNeg(n, t)) && usedNonNeg(n, t) ==> freeBalanced(n, t)
 //@   modifies contents(n.deviceUsed), contents(n.deviceFree), contents(n.deviceTotal), contents(n.allocateSet), allmaps(n.deviceUsed[""]), allmaps(n.deviceUsed[""][0]), allmaps(n.allocateSet[""]), allmaps(n.vfAllocations), all(VFAllocation).allocatedVFs, allmaps(n.vfAllocations[""].allocatedVFs), allmaps(n.vfAllocations[""].allocatedVFs[0]), allelems(anyStrings())
 //@   loop 1 invariant ledgersOK(n) && innerDistinct(n) && allocSetOK(n)
 //@   loop 1 invariant forall t schedulingv1alpha1.DeviceType, m int, r corev1.ResourceName :: tot(n, t, m, r) == old(tot(n, t, m, r))
 //@   loop 1 invariant forall t schedulingv1alpha1.DeviceType :: !($seen[t] && has(deviceAllocations, t) && old(applies(n, t, pod, add))) ==> usedFreeSame(n, t) && (podIn(n.allocateSet[t], pod.ObjectMeta.Namespace, pod.ObjectMeta.Name) <==> old(podIn(n.allocateSet[t], pod.ObjectMeta.Namespace, pod.ObjectMeta.Name)))
 //@   loop 1 invariant add ==> (forall t schedulingv1alpha1.DeviceType, i int, r corev1.ResourceName :: $seen[t] && has(deviceAllocations, t) && old(applies(n, t, pod, add)) && 0 <= i && i < len(dal(deviceAllocations, t)) ==> usd(n, t, minorOf(dal(deviceAllocations, t), i), r) == old(usd(n, t, minorOf(dal(deviceAllocations, t), i), r)) + old(amt(dal(deviceAllocations, t), i, r)))
-//@   loop 1 invariant !add ==> (forall t schedulingv1alpha1.DeviceType, i int, r corev1.ResourceName :: $seen[t] && has(deviceAllocations, t) && old(applies(n, t, pod, add)) && 0 <= i && i < len(dal(deviceAllocations, t)) ==> usd(n, t, minorOf(dal(deviceAllocations, t), i), r) == max0(old(usd(n, t, minorOf(dal(deviceAllocations, t), i), r)) - old(amt(dal(deviceAllocations, t), i, r))))
+//@   loop 1 invariant !add ==> (forall t schedulingv1alpha1.DeviceType, i int, r corev1.ResourceName :: $seen[t] && has(deviceAllocations, t) && old(applies(n, t, pod, add)) && 0 <= i && i < len(dal(deviceAllocations, t)) ==> usd(n, t, minorOf(dal(deviceAllocations, t), i), r) == subNN(old(hasUsd(n, t, minorOf(dal(deviceAllocations, t), i), r)), old(usd(n, t, minorOf(dal(deviceAllocations, t), i), r)), old(amt(dal(deviceAllocations, t), i, r))))
 //@   loop 1 invariant forall t schedulingv1alpha1.DeviceType, m int, r corev1.ResourceName :: $seen[t] && has(deviceAllocations, t) && old(applies(n, t, pod, add)) && !named(dal(deviceAllocations, t), m) ==> usd(n, t, m, r) == old(usd(n, t, m, r))
 //@   loop 1 invariant forall t schedulingv1alpha1.DeviceType :: $seen[t] && has(deviceAllocations, t) && old(applies(n, t, pod, add)) ==> balanced(n, t)
 //@   loop 1 invariant forall t schedulingv1alpha1.DeviceType :: $seen[t] && has(deviceAllocations, t) && old(applies(n, t, pod, add)) ==> (podIn(n.allocateSet[t], pod.ObjectMeta.Namespace, pod.ObjectMeta.Name) <==> add)
 //@   loop 1 invariant rlSame()
+//@   loop 1 invariant #keys_not_yet: forall t schedulingv1alpha1.DeviceType :: !($seen[t] && has(deviceAllocations, t) && old(applies(n, t, pod, add))) ==> usedKeysSame(n, t)
+//@   loop 1 invariant #nonneg: forall t schedulingv1alpha1.DeviceType :: old(usedNonNeg(n, t)) && (add && has(deviceAllocations, t) ==> old(amtNonNeg(dal(deviceAllocations, t)))) ==> usedNonNeg(n, t)
 //@   assert before call updateDeviceUsed: #same_slice: len($arg1) == len(dal(deviceAllocations, $arg0)) && arr($arg1) == arr(dal(deviceAllocations, $arg0)) && off($arg1) == off(dal(deviceAllocations, $arg0))
 //@   assert before call updateDeviceUsed: #not_yet: usedFreeSame(n, $arg0)
+//@   assert before call updateDeviceUsed: #not_yet_keys: usedKeysSame(n, $arg0)
 //@   assert before call updateDeviceUsed: #amt_same: forall i int, r corev1.ResourceName :: 0 <= i && i < len($arg1) ==> amt($arg1, i, r) == old(amt($arg1, i, r))
-//@   assert after call updateDeviceUsed: #cur_updateDeviceUsed: (forall i int, r corev1.ResourceName :: 0 <= i && i < len(dal(deviceAllocations, $arg0)) ==> usd(n, $arg0, minorOf(dal(deviceAllocations, $arg0), i), r) == (add ? old(usd(n, $arg0, minorOf(dal(deviceAllocations, $arg0), i), r)) + old(amt(dal(deviceAllocations, $arg0), i, r)) : max0(old(usd(n, $arg0, minorOf(dal(deviceAllocations, $arg0), i), r)) - old(amt(dal(deviceAllocations, $arg0), i, r)))))
-//@   assert after call resetDeviceFree: #cur_resetDeviceFree: (forall i int, r corev1.ResourceName :: 0 <= i && i < len(dal(deviceAllocations, $arg0)) ==> usd(n, $arg0, minorOf(dal(deviceAllocations, $arg0), i), r) == (add ? old(usd(n, $arg0, minorOf(dal(deviceAllocations, $arg0), i), r)) + old(amt(dal(deviceAllocations, $arg0), i, r)) : max0(old(usd(n, $arg0, minorOf(dal(deviceAllocations, $arg0), i), r)) - old(amt(dal(deviceAllocations, $arg0), i, r)))))
-//@   assert after call updateAllocateSet: #cur_updateAllocateSet: (forall i int, r corev1.ResourceName :: 0 <= i && i < len(dal(deviceAllocations, $arg0)) ==> usd(n, $arg0, minorOf(dal(deviceAllocations, $arg0), i), r) == (add ? old(usd(n, $arg0, minorOf(dal(deviceAllocations, $arg0), i), r)) + old(amt(dal(deviceAllocations, $arg0), i, r)) : max0(old(usd(n, $arg0, minorOf(dal(deviceAllocations, $arg0), i), r)) - old(amt(dal(deviceAllocations, $arg0), i, r)))))
+//@   assert after call updateDeviceUsed: #cur_updateDeviceUsed: (forall i int, r corev1.ResourceName :: 0 <= i && i < len(dal(deviceAllocations, $arg0)) ==> usd(n, $arg0, minorOf(dal(deviceAllocations, $arg0), i), r) == (add ? old(usd(n, $arg0, minorOf(dal(deviceAllocations, $arg0), i), r)) + old(amt(dal(deviceAllocations, $arg0), i, r)) : subNN(old(hasUsd(n, $arg0, minorOf(dal(deviceAllocations, $arg0), i), r)), old(usd(n, $arg0, minorOf(dal(deviceAllocations, $arg0), i), r)), old(amt(dal(deviceAllocations, $arg0), i, r)))))
+//@   assert after call resetDeviceFree: #cur_resetDeviceFree: (forall i int, r corev1.ResourceName :: 0 <= i && i < len(dal(deviceAllocations, $arg0)) ==> usd(n, $arg0, minorOf(dal(deviceAllocations, $arg0), i), r) == (add ? old(usd(n, $arg0, minorOf(dal(deviceAllocations, $arg0), i), r)) + old(amt(dal(deviceAllocations, $arg0), i, r)) : subNN(old(hasUsd(n, $arg0, minorOf(dal(deviceAllocations, $arg0), i), r)), old(usd(n, $arg0, minorOf(dal(deviceAllocations, $arg0), i), r)), old(amt(dal(deviceAllocations, $arg0), i, r)))))
+//@   assert after call updateAllocateSet: #cur_updateAllocateSet: (forall i int, r corev1.ResourceName :: 0 <= i && i < len(dal(deviceAllocations, $arg0)) ==> usd(n, $arg0, minorOf(dal(deviceAllocations, $arg0), i), r) == (add ? old(usd(n, $arg0, minorOf(dal(deviceAllocations, $arg0), i), r)) + old(amt(dal(deviceAllocations, $arg0), i, r)) : subNN(old(hasUsd(n, $arg0, minorOf(dal(deviceAllocations, $arg0), i), r)), old(usd(n, $arg0, minorOf(dal(deviceAllocations, $arg0), i), r)), old(amt(dal(deviceAllocations, $arg0), i, r)))))
 
 // ---- inventory refresh ----
 
@@ -419,8 +457,8 @@ package deviceshare
 //@ spec func avail(n *nodeDevice, t schedulingv1alpha1.DeviceType, pre deviceResources, m int, r corev1.ResourceName) real = max0(tot(n, t, m, r) - max0(usd(n, t, m, r) - val(pre[m], r)))
 //@ spec func nonNegDR(d deviceResources) bool = forall m int, r corev1.ResourceName :: val(d[m], r) >= 0
 
-// In-use amounts are non-negative (they are sums of non-negative allocations; removal clamps at 0).
-//@ spec func usedNonNeg(n *nodeDevice, t schedulingv1alpha1.DeviceType) bool = forall m int, r corev1.ResourceName :: usd(n, t, m, r) >= 0
+// usedNonNeg (in-use amounts are non-negative: sums of non-negative allocations, removal clamps at 0) is the ledger
+// invariant defined with the ledgers above; updateDeviceUsed / updateCacheUsed #nonneg prove that it is kept.
 
 //@ func (*nodeDevice).calcFreeWithPreemptible [C07]
 //@   requires n != nil && balanced(n, deviceType) && totNonNeg(n, deviceType) && usedNonNeg(n, deviceType)
@@ -571,6 +609,14 @@ package deviceshare
 //@   ensures #duplicate: oldPod == nil && pod.Spec.NodeName != "" && !util.IsPodTerminated(pod) && old(n.nodeDeviceInfos[pod.Spec.NodeName]) != nil ==> (forall t schedulingv1alpha1.DeviceType :: old(podIn(n.nodeDeviceInfos[pod.Spec.NodeName].allocateSet[t], pod.ObjectMeta.Namespace, pod.ObjectMeta.Name)) ==> usedFreeSame(n.nodeDeviceInfos[pod.Spec.NodeName], t))
 //@   ensures #inv_ledgers: pod.Spec.NodeName != "" && !util.IsPodTerminated(pod) && n.nodeDeviceInfos[pod.Spec.NodeName] != nil ==> ledgersOK(n.nodeDeviceInfos[pod.Spec.NodeName])
 //@   ensures #inv_inner: pod.Spec.NodeName != "" && !util.IsPodTerminated(pod) && n.nodeDeviceInfos[pod.Spec.NodeName] != nil ==> innerDistinct(n.nodeDeviceInfos[pod.Spec.NodeName])
+// (#inv_inner and #duplicate are also checked return statement by return statement: the solvers are unstable on the goal over the
+// merged exit state -- they lose the instance of the entry invariant on the early-return path -- and stable on each path.)
+//@   assert at return: #inner_at_return: pod.Spec.NodeName != "" && !util.IsPodTerminated(pod) && n.nodeDeviceInfos[pod.Spec.NodeName] != nil ==> innerDistinct(n.nodeDeviceInfos[pod.Spec.NodeName])
+//@   assert at return: #duplicate_at_return: oldPod == nil && pod.Spec.NodeName != "" && !util.IsPodTerminated(pod) && old(n.nodeDeviceInfos[pod.Spec.NodeName]) != nil ==> (forall t schedulingv1alpha1.DeviceType :: old(podIn(n.nodeDeviceInfos[pod.Spec.NodeName].allocateSet[t], pod.ObjectMeta.Namespace, pod.ObjectMeta.Name)) ==> usedFreeSame(n.nodeDeviceInfos[pod.Spec.NodeName], t))
+//@   assert after call updateCacheUsed: #inner_after_a: n.nodeDeviceInfos[pod.Spec.NodeName] == $recv
+//@   assert after call updateCacheUsed: #inner_after_b: innerDistinct($recv)
+//@   assert after call updateCacheUsed: #inner_after_c: innerDistinct(n.nodeDeviceInfos[pod.Spec.NodeName])
+//@   assert after call updateCacheUsed: #duplicate_after: oldPod == nil && old(n.nodeDeviceInfos[pod.Spec.NodeName]) != nil ==> (forall t schedulingv1alpha1.DeviceType :: old(podIn(n.nodeDeviceInfos[pod.Spec.NodeName].allocateSet[t], pod.ObjectMeta.Namespace, pod.ObjectMeta.Name)) ==> usedFreeSame(n.nodeDeviceInfos[pod.Spec.NodeName], t))
 //@   ensures #inv_set: pod.Spec.NodeName != "" && !util.IsPodTerminated(pod) && n.nodeDeviceInfos[pod.Spec.NodeName] != nil ==> allocSetOK(n.nodeDeviceInfos[pod.Spec.NodeName])
 //@   modifies inferred
 
